@@ -54,10 +54,17 @@ def load_prop(pid):
 class Ctx:
     """Per-worker context: the step clock, the reference server, cached pools."""
 
-    def __init__(self):
+    # properties that promise the same answer in *any* process ("identical results", "exactly what solving
+    # alone gives", "identical every time"): their reference interpreter also hashes strings differently
+    HASH_VARIED = ("C10", "C12", "C15")
+    REF_HASHSEED = 977
+
+    def __init__(self, pid=None):
         from .steps import StepClock
         self.snap = proc.snapshot()
-        self.ref = proc.RefServer()          # fork the zygote before anything else runs
+        self.pid = pid
+        # the zygote comes into being before anything else runs
+        self.ref = proc.RefServer(hashseed=self.REF_HASHSEED if pid in self.HASH_VARIED else None)
         self.clock = StepClock(self.snap)
         self.clock.install()
         self.cache = {}
@@ -77,17 +84,20 @@ class Ctx:
 _CTX = None
 
 
-def ctx():
+def ctx(pid=None):
     global _CTX
-    if _CTX is None:
-        _CTX = Ctx()
+    if _CTX is None or (pid is not None and _CTX.pid != pid):
+        if _CTX is not None:
+            _CTX.ref.close()
+            _CTX.clock.uninstall()
+        _CTX = Ctx(pid)
     return _CTX
 
 
 def run_spec(pid, spec):
     """Execute one run spec in a fresh world; returns the prop's result dict."""
     prop = load_prop(pid)
-    c = ctx()
+    c = ctx(pid)
     proc.OPTIMIZE = int((spec.get("cfg") or {}).get("optimize") or 0)
     w = c.world(dotted=bool((spec.get("cfg") or {}).get("cwd_dot")))
     try:
@@ -120,7 +130,7 @@ def run_spec(pid, spec):
 def _worker_chunk(pid, base_seed, tier, indices, keep_specs):
     faulthandler.enable()
     prop = load_prop(pid)
-    c = ctx()
+    c = ctx(pid)
     c.sweep_cap = SWEEP_CAP[tier]
     out = []
     for idx in indices:
@@ -376,7 +386,7 @@ def check(pid, tier, seed=None, runs=None, workers=None, write_evidence=True, qu
             if not quiet:
                 print("violation found in run idx=%s seed=%s: %s %s" % (r["idx"], r["seed"], v.get("inv"), v.get("msg", "")[:500]))
             try:
-                ctx()   # minimise in this process (own zygote)
+                ctx(pid)   # minimise in this process (own zygote)
                 mspec, n_exec = minimise(pid, spec, v)
                 mres = run_spec(pid, mspec)
                 mv = mres.get("violation") or v
